@@ -81,7 +81,7 @@ macro_rules! bodies {
                 if !w.ok {
                     return w;
                 }
-                cover!(N <= 3 || (got >> (32 - N)) & 1 == 1 && unsafe { crate::stubs::DIV_R } != 0);
+                cover!(N <= 5 || (got >> (32 - N)) & 1 == 1 && unsafe { crate::stubs::DIV_R } != 0);
                 cmp_n(N, got, w.want[0] as u32)
             } else {
                 cmp_n(N, got, r::native_div(N, $es, x, y))
@@ -108,7 +108,7 @@ macro_rules! bodies {
                 None => return Outcome::skip(),
             };
             let got = $P::<N>::round(mk::<N>(x)).to_bits();
-            cover!(N <= 4 || (got >> (32 - N)) != x && got != 0);
+            cover!(N <= 6 || (got >> (32 - N)) != x && got != 0);
             cmp_n(N, got, r::rint(N, $es, x, 0))
         }
     };
